@@ -7,7 +7,7 @@ from lib.common import build_props
 
 GROUPS = ['GenStruct', 'GenParams']
 
-EXPECT = {'raise': None, 'timeout': 'TimeoutError', 'die': 'RuntimeError', 'nested': 'RuntimeError'}
+EXPECT = {'raise': None, 'timeout': 'TimeoutError', 'die': 'RuntimeError', 'nested': 'RuntimeError', 'init_raise': None, 'exit_raise': None}
 
 
 def oracle(rec):
@@ -42,7 +42,9 @@ def oracle(rec):
             di += 1
         if after_failure and dispatched and fresh is False:
             return f"call base={c['base']} after a failed call reused the old workers instead of starting fresh ones", checked
-        if mode in ('raise', 'timeout', 'die', 'nested'):
+        if mode == 'init_raise' and out.get('outcome') == 'ok' and fresh is False:
+            mode = None          # kept-alive workers were reused: worker_init is not run again, the call succeeds
+        if mode in ('raise', 'timeout', 'die', 'nested', 'init_raise', 'exit_raise') and not (mode in ('init_raise', 'exit_raise') and c['n'] == 0):
             if out.get('outcome') != 'exc':
                 return f"call base={c['base']} ({mode}) did not raise: {str(out.get('value'))[:100]}", checked
             t = out['exc']['type']
@@ -50,6 +52,11 @@ def oracle(rec):
                 spec = [b for b in beh if b['at'] // 1000 == c['base'] // 1000 and b['do'] == 'raise'][0]
                 if t != spec['exc']:
                     return f"call base={c['base']} raised {t}, the task raised {spec['exc']}", checked
+            elif mode in ('init_raise', 'exit_raise'):
+                exc, tag = c['init_raises' if mode == 'init_raise' else 'exit_raises']
+                if t != exc or (str(tag) not in out['exc']['args'] and str(tag) not in out['exc']['dict']):
+                    return (f"call base={c['base']}: its worker_{mode[:4]} raised {exc}(.., {tag}) but the call raised "
+                            f"{t}{out['exc']['args'][:80]} -- the error of another call"), checked
             elif t != EXPECT[mode]:
                 return f"call base={c['base']} ({mode}) raised {t}: {out['exc']['args']}, expected {EXPECT[mode]}", checked
             after_failure = True
